@@ -3,7 +3,7 @@ import ast
 import math
 from .core import *
 
-EXEC, GENERIC, SPEC = 'exec', 'generic', 'spec'
+EXEC, GENERIC, SPEC, SPECULATE = 'exec', 'generic', 'spec', 'speculate'
 I = z3.IntSort()
 B = z3.BoolSort()
 R = z3.RealSort()
@@ -33,6 +33,7 @@ class Interp:
         self.cur_line = 0
         self.max_depth = 12
         self.time_terms = []
+        self._shape_done = {}
 
     # ================================================================ scalars
     def strlit(self, s):
@@ -84,7 +85,7 @@ class Interp:
         if s == Str:
             return STR_NONE
         if isinstance(ty, TOpt):
-            return s.none
+            return s.constructor(0)()
         raise Unsupported(f'None stored where {ty} is declared')
 
     def coerce_term(self, v, ty):
@@ -98,7 +99,7 @@ class Interp:
             s = sort_of(ty)
             if s in (Ref, Str):
                 return inner
-            return s.some(inner)
+            return s.constructor(1)(inner)
         if isinstance(ty, TTuple):
             if isinstance(v, SV):
                 return v.t
@@ -117,7 +118,7 @@ class Interp:
         s = v.t.sort()
         if s in (Ref, Str):
             return v.t
-        return s.v(v.t)
+        return s.accessor(1, 0)(v.t)
 
     def opt_is_none(self, v):
         s = v.t.sort()
@@ -125,7 +126,7 @@ class Interp:
             return v.t == NULL
         if s == Str:
             return v.t == STR_NONE
-        return s.is_none(v.t)
+        return s.recognizer(0)(v.t)
 
     def wrap(self, term, ty, heap=None):
         """z3 term of declared type ty -> value"""
@@ -164,10 +165,12 @@ class Interp:
                 self.run.assume(self.ts.enum_domain(v.t, v.ty.name), silent=True)
             elif isinstance(v.ty, TOpt) and isinstance(v.ty.t, TEnum) and v.t.sort() not in (Ref, Str):
                 s = v.t.sort()
-                self.run.assume(z3.Or(s.is_none(v.t), self.ts.enum_domain(s.v(v.t), v.ty.t.name)), silent=True)
+                self.run.assume(z3.Or(s.recognizer(0)(v.t), self.ts.enum_domain(s.accessor(1, 0)(v.t), v.ty.t.name)), silent=True)
         elif isinstance(v, HeapVal):
             self.run.assume(v.ref != NULL, silent=True)
             self.run.assume(self.H(v).get('alloc', arr(Ref, B))[v.ref], silent=True)
+            self.assume_kind(v)
+            self.assume_container_shape(v)
         elif isinstance(v, tuple):
             for x in v:
                 self.assume_domain(x)
@@ -185,6 +188,62 @@ class Interp:
             sel = sel[v]
         self.run.assume(z3.ForAll(list(vars_), sel == body), silent=True)
         return a
+
+    def ref_valid_term(self, t, ty, heap):
+        """validity of a reference term of declared type ty read out of a container: non-null unless Optional,
+        allocated, of the right kind / class"""
+        opt = isinstance(ty, TOpt)
+        if opt:
+            ty = ty.t
+        k = 'obj' if isinstance(ty, TObj) else 'list' if isinstance(ty, TList) else 'set' if isinstance(ty, TSet) \
+            else 'dict' if isinstance(ty, TDict) else 'rec'
+        cs = [heap.get('alloc', arr(Ref, B))[t], kind_of(t) == KINDS[k]]
+        if isinstance(ty, TObj) and ty.cls in self.ct.classes:
+            subs = [ty.cls] + [c for c in self.ct.subclasses(ty.cls) if c != ty.cls]
+            if len(subs) <= 16:
+                cs.append(z3.Or([class_of(t) == self.ts.class_id(c) for c in subs]))
+        ok = z3.And(t != NULL, *cs)
+        return z3.Or(t == NULL, ok) if opt else ok
+
+    def assume_container_shape(self, v):
+        """references stored in a container are valid references of the declared element type (quantified)"""
+        h = self.H(v)
+        if isinstance(v, DictV) and is_ref_type(v.vty):
+            has, val = self.dict_has(v)[1], self.dict_val(v)[1]
+            key = ('d', has.get_id(), val.get_id(), v.ref.get_id())
+            if key in self._shape_done:
+                return
+            self._shape_done[key] = (has, val, v.ref)
+            k = z3.Const('k!shape', sort_of(v.kty))
+            self.run.assume(z3.ForAll([k], z3.Implies(has[v.ref][k], self.ref_valid_term(val[v.ref][k], v.vty, h))), silent=True)
+        elif isinstance(v, ListV) and is_ref_type(v.ety):
+            da = self.list_data(v)[1]
+            ln = h.get('L.len', arr(Ref, I))
+            key = ('l', da.get_id(), ln.get_id(), v.ref.get_id())
+            if key in self._shape_done:
+                return
+            self._shape_done[key] = (da, ln, v.ref)
+            i = z3.Const('i!shape', I)
+            self.run.assume(z3.ForAll([i], z3.Implies(z3.And(0 <= i, i < ln[v.ref]),
+                                                     self.ref_valid_term(da[v.ref][i], v.ety, h))), silent=True)
+        elif isinstance(v, SetV) and is_ref_type(v.ety):
+            sa = self.set_arr(v)[1]
+            key = ('s', sa.get_id(), v.ref.get_id())
+            if key in self._shape_done:
+                return
+            self._shape_done[key] = (sa, v.ref)
+            x = z3.Const('x!shape', Ref)
+            self.run.assume(z3.ForAll([x], z3.Implies(sa[v.ref][x], self.ref_valid_term(x, v.ety, h))), silent=True)
+
+    def assume_kind(self, v):
+        """python objects of different kinds (dict / set / list / payload dict / instances of unrelated classes) are
+        never the same object"""
+        k = {ObjV: 'obj', ListV: 'list', SetV: 'set', DictV: 'dict', RecV: 'rec'}[type(v)]
+        self.run.assume(kind_of(v.ref) == KINDS[k], silent=True)
+        if isinstance(v, ObjV) and v.cls in self.ct.classes:
+            subs = [v.cls] + [c for c in self.ct.subclasses(v.cls) if c != v.cls]
+            if len(subs) <= 16:
+                self.run.assume(z3.Or([class_of(v.ref) == self.ts.class_id(c) for c in subs]), silent=True)
 
     # ================================================================ truthiness / equality
     def truthy(self, v):
@@ -393,6 +452,8 @@ class Interp:
         al = self.heap.get('alloc', arr(Ref, B))
         self.run.assume(z3.Not(al[r]), silent=True)
         self.run.assume(r != NULL, silent=True)
+        kind = {'list': 'list', 'set': 'set', 'dict': 'dict', 'rec': 'rec', 'sorted': 'list'}.get(hint, 'obj')
+        self.run.assume(kind_of(r) == KINDS[kind], silent=True)
         self.heap.set('alloc', z3.Store(al, r, True))
         return r
 
@@ -509,7 +570,7 @@ class Interp:
     def set_chi(self, s):
         """characteristic array of a set-like value"""
         if isinstance(s, SymSet):
-            return s.arr
+            return s.arr if s.arr is not None else EmptyChi()
         if isinstance(s, SetV):
             return self.set_arr(s)[1][s.ref]
         if isinstance(s, DictV):
@@ -708,6 +769,11 @@ class InterpExpr:
         if ok is True or self.mode == SPEC:
             return
         site = f'safe:{exc}@{self.cur_fn}:{line}'
+        if self.mode == SPECULATE:
+            if ok is False or self.run._check(z3.Not(self.as_bool(ok))) != z3.unsat:
+                raise SpeculationFailed()
+            self.safe_sites.setdefault(site, 'ok')
+            return
         self.safe_sites.setdefault(site, 'ok')
         if self.mode == GENERIC:
             if not self.run.oblige(site + '[generic]', 'safe', self.as_bool(ok), line):
@@ -716,6 +782,38 @@ class InterpExpr:
             return
         if ok is False or not self.run.decide(ok):
             raise PyRaise(ExcV(exc, ()), line, implicit=site)
+
+    def speculate(self, fn):
+        """evaluate fn() without forking; SpeculationFailed (state rolled back) if it would fork, write the heap, emit
+        an effect or contains a partial operation that is not provably safe here"""
+        heap = self.heap
+        saved = (dict(heap.arr), {k: list(v) for k, v in heap.log.items()}, len(heap.epochs), len(self.effects),
+                 self.mode, self.clock)
+        self.mode = SPECULATE
+        self.run.no_fork += 1
+        self.run.push()
+        ok = False
+        try:
+            v = fn()
+            if len(heap.epochs) != saved[2] or len(self.effects) != saved[3]:
+                raise SpeculationFailed()
+            for k, t in saved[0].items():
+                if not heap.arr[k].eq(t):
+                    raise SpeculationFailed()
+            ok = True
+            return v
+        except Unsupported:
+            raise SpeculationFailed()
+        finally:
+            self.run.pop()
+            self.run.no_fork -= 1
+            self.mode = saved[4]
+            if not ok:
+                heap.arr = saved[0]
+                heap.log = saved[1]
+                del heap.epochs[saved[2]:]
+                del self.effects[saved[3]:]
+                self.clock = saved[5]
 
     def ev(self, n, fr):
         m = getattr(self, 'ev_' + type(n).__name__, None)
@@ -1011,6 +1109,15 @@ class InterpExpr:
             for c, v in reversed(pairs[:-1]):
                 t = z3.If(self.as_bool(c), self.coerce_term(v, ty), t)
             return self.wrap(t, ty)
+        # Optional mixed with plain values of its base type -> Optional
+        opts = [v for v in vals if isinstance(v, SV) and isinstance(v.ty, TOpt)]
+        if opts and all(v is None or (isinstance(v, SV) and isinstance(v.ty, TOpt)) or self.family(v) == self.family(self.narrow_opt(opts[0]))
+                        for v in vals):
+            ty = opts[0].ty
+            t = self.coerce_term(v0, ty)
+            for c, v in reversed(pairs[:-1]):
+                t = z3.If(self.as_bool(c), self.coerce_term(v, ty), t)
+            return self.wrap(t, ty)
         # mixed None / value -> Optional
         non = [v for v in vals if v is not None]
         if non and len(non) < len(vals):
@@ -1144,6 +1251,8 @@ class InterpExpr:
             return self.eq(a, b)
         if isinstance(a, Builtin) and isinstance(b, Builtin):
             return a.name == b.name
+        if isinstance(a, HeapVal) != isinstance(b, HeapVal):
+            return False
         raise Unsupported(f'`is` between {type(a).__name__} and {type(b).__name__}')
 
     def num_term(self, v, line):
@@ -1198,6 +1307,10 @@ class InterpExpr:
     def ev_BoolOp(self, n, fr):
         is_and = isinstance(n.op, ast.And)
         if self.mode == EXEC:
+            try:
+                return self.speculate(lambda: self.ev_BoolOp(n, fr))
+            except SpeculationFailed:
+                pass
             v = None
             for i, sub in enumerate(n.values):
                 v = self.ev(sub, fr)
@@ -1213,7 +1326,7 @@ class InterpExpr:
         guards = []
         vals = []
         for sub in n.values:
-            if self.mode == GENERIC and guards:
+            if self.mode in (GENERIC, SPECULATE) and guards:
                 self.run.push()
                 for g in guards:
                     self.run.assume(g)
@@ -1253,8 +1366,12 @@ class InterpExpr:
         if isinstance(c, bool):
             return self.ev(n.body if c else n.orelse, fr)
         if self.mode == EXEC:
+            try:
+                return self.speculate(lambda: self.ev_IfExp(n, fr))
+            except SpeculationFailed:
+                pass
             return self.ev(n.body if self.run.decide(c) else n.orelse, fr)
-        if self.mode == GENERIC:
+        if self.mode in (GENERIC, SPECULATE):
             self.run.push(); self.run.assume(c)
             try:
                 a = self.ev(n.body, fr)
@@ -1651,9 +1768,56 @@ class InterpStmt:
     def st_Return(self, s, fr):
         raise ReturnEx(self.ev(s.value, fr) if s.value is not None else None)
 
+    LOG_LEVELS = ('trace', 'blather', 'debug', 'info', 'warn', 'error', 'critical')
+
+    def _log_only(self, stmts, fi):
+        """statements whose only effect is logging (and locals used for nothing else)"""
+        names = set()
+        for st in stmts:
+            if isinstance(st, ast.Expr) and isinstance(st.value, ast.Call) and isinstance(st.value.func, ast.Attribute) \
+                    and st.value.func.attr in self.LOG_LEVELS and 'logger' in ast.unparse(st.value.func.value):
+                continue
+            if isinstance(st, (ast.Assign, ast.AugAssign)):
+                tg = st.targets if isinstance(st, ast.Assign) else [st.target]
+                if all(isinstance(t, ast.Name) for t in tg):
+                    names.update(t.id for t in tg)
+                    continue
+            if isinstance(st, ast.If) and not st.orelse:
+                sub = self._log_only(st.body, None)
+                if sub is not None:
+                    names |= sub
+                    continue
+            if isinstance(st, ast.Pass):
+                continue
+            return None
+        if fi is not None and names:
+            inside = {id(x) for st in stmts for x in ast.walk(st)}
+            for x in ast.walk(fi.node):
+                if isinstance(x, ast.Name) and x.id in names and id(x) not in inside:
+                    return None
+        return names
+
     def st_If(self, s, fr):
         c = self.truthy(self.ev(s.test, fr))
+        if not isinstance(c, bool) and self.mode in (EXEC, SPECULATE) and not s.orelse and fr.fi is not None \
+                and self._log_only(s.body, fr.fi) is not None:
+            # logging-only branch: its expressions are evaluated under the guard for their exception-safety, the path
+            # is not forked
+            def body():
+                self.run.assume(c)
+                self.exec_block(s.body, fr)
+            try:
+                saved_vars = dict(fr.vars)
+                self.speculate(body)
+                fr.vars = saved_vars
+                return
+            except SpeculationFailed:
+                fr.vars = saved_vars
+                if self.mode == SPECULATE:
+                    raise
         if not isinstance(c, bool):
+            if self.mode == SPECULATE:
+                raise SpeculationFailed()
             c = self.run.decide(c)
         self.exec_block(s.body if c else s.orelse, fr)
 
